@@ -332,7 +332,23 @@ func identsToExprs(ids []*ast.Ident) []ast.Expr {
 func (fc *FuncCtx) execAssign(st *State, lhs, rhs []ast.Expr, define bool, n ast.Node) {
 	var vals []Term
 	if len(rhs) == 1 && len(lhs) > 1 {
+		fc.pendingAlias = nil
 		vals = fc.evalMulti(st, rhs[0], len(lhs))
+		for _, pa := range fc.pendingAlias {
+			if pa.call != unparen(rhs[0]) || pa.result >= len(lhs) {
+				continue
+			}
+			if id, ok := lhs[pa.result].(*ast.Ident); ok && id.Name != "_" {
+				if obj, ok := fc.info.ObjectOf(id).(*types.Var); ok && fc.isLocal(obj) {
+					if _, isPtr := obj.Type().Underlying().(*types.Pointer); isPtr {
+						st.alias[obj] = fc.elementAlias(st, pa.base, pa.idx)
+						delete(st.vars, obj)
+						vals[pa.result] = Term{S: "", T: nil}
+					}
+				}
+			}
+		}
+		fc.pendingAlias = nil
 	} else {
 		for i, r := range rhs {
 			// pointer alias: r := d.reader
